@@ -138,19 +138,25 @@ void ext_result(const char* status, uint64_t ret, long rc, uint64_t out, uint8_t
     os(bad ? " 1" : " 0");
 }
 static char inbuf[1 << 22];
-void _start(void)
+static void do_line(char* p)
 {
-    size_t n = 0; long r;
-    while (n < sizeof inbuf - 1 && (r = sys3(3, 0, (long)(inbuf + n), (long)(sizeof inbuf - 1 - n))) > 0) n += (size_t)r;
-    inbuf[n] = 0;
-    char* p = inbuf;
-    while (*p) {
-        static char* tok[640]; int nt = 0; char* e = p; while (*e && *e != '\n') e++; char save = *e; *e = 0;
-        for (char* q = p; *q && nt < 640; ) { while (*q == ' ') q++; if (!*q) break; tok[nt++] = q; while (*q && *q != ' ') q++; if (*q) *q++ = 0; }
-        if (nt >= 11 && !strcmp(tok[0], "X")) cmd_x(tok);
-        else if (nt && exec_ext(tok, nt)) { }
-        else if (nt) os("E unknown\n");
-        p = save ? e + 1 : e;
+    static char* tok[640]; int nt = 0;
+    for (char* q = p; *q && nt < 640; ) { while (*q == ' ') q++; if (!*q) break; tok[nt++] = q; while (*q && *q != ' ') q++; if (*q) *q++ = 0; }
+    if (nt >= 11 && !strcmp(tok[0], "X")) cmd_x(tok);
+    else if (nt && exec_ext(tok, nt)) { }
+    else if (nt) os("E unknown\n");
+}
+void _start(void)
+{   /* the command stream is processed line by line as it arrives (batches are larger than any buffer) */
+    size_t n = 0; long r; int eof = 0;
+    while (!eof || n) {
+        if (!eof) { r = sys3(3, 0, (long)(inbuf + n), (long)(sizeof inbuf - 1 - n)); if (r <= 0) eof = 1; else n += (size_t)r; }
+        size_t start = 0;
+        for (size_t i = 0; i < n; i++)
+            if (inbuf[i] == '\n') { inbuf[i] = 0; do_line(inbuf + start); start = i + 1; }
+        if (eof) { if (start < n) { inbuf[n] = 0; do_line(inbuf + start); } n = 0; }
+        else if (start == 0 && n == sizeof inbuf - 1) { os("E line too long\n"); n = 0; }      /* a single line above 4 MiB: not produced by the drivers */
+        else { memmove(inbuf, inbuf + start, n - start); n -= start; }
     }
     oflush();
     sys3(1, 0, 0, 0);
